@@ -20,7 +20,8 @@ CONSTANTS
   InitRules,     \* sequence of [anchor, rule] given to the constructor
   Ops,           \* enabled request names
   ProbeLrus,     \* LRUs used to probe resolution / lookup (present or absent)
-  MaxLevel       \* depth bound (number of requests + 1)
+  MaxLevel,      \* depth bound (number of requests + 1)
+  EmitT          \* TRUE: print the history of every transition taken (transition cover export)
 
 VARIABLES st, abs, ram, ok, nreq, hist
 vars == <<st, abs, ram, ok, nreq, hist>>
@@ -42,7 +43,8 @@ Init ==
 Same(p, a) == p.exc = a.exc /\ p.pages = a.pages /\ p.created = a.created
 
 Step(p, a) == /\ st' = Clean(p.st) /\ abs' = a.A /\ ok' = Same(p, a)
-Log(e) == hist' = Append(hist, e)
+Log(e) == /\ hist' = Append(hist, e)
+          /\ (EmitT => PrintT(<<"BEHAVIOUR", ToJson([h |-> Append(hist, e)])>>))
 
 DoAddPage ==
   /\ "AddPage" \in Ops
